@@ -12,6 +12,7 @@ import SkNet.Lemmas.HeatConverge
 import SkNet.Lemmas.HeatExist
 import SkNet.Lemmas.HeatEquiv
 import SkNet.Lemmas.HeatGuards
+import SkNet.Lemmas.HeatScale
 
 namespace SkNet.C14
 open SkNet SkNet.Heat SkNet.HeatSpec
@@ -977,5 +978,25 @@ theorem fit_returns_dict (algo : Algo) (n nnz : Nat) (B : Nat → Nat → Rat) (
     rw [hr] at harr
     cases harr
     rw [hin e he]; exact hpos'
+
+/-! ## scale invariance -/
+
+/-- **fit_scale_invariant**. Multiplying every weight by the same `c > 0` (1e-9, 1e+12, …) changes nothing:
+`normalize(c·A) = normalize(A)` — a row is null only if all its weights are 0, however small they are — so both
+estimators return the same `values_`, `values_row_`, `values_col_` (and the same errors) for the rescaled graph, for
+every input form, `init`, damping factor and `n_iter`. -/
+theorem fit_scale_invariant (c : Rat) (hc : 0 < c) (algo : Algo) (nRow nCol nnz : Nat) (B : Nat → Nat → Rat) (a : Args)
+    (nIter : Int) (α : Rat) :
+    normalize nCol (fun i j => c * B i j) = normalize nCol B ∧
+    fit algo nRow nCol nnz (fun i j => c * B i j) a nIter α = fit algo nRow nCol nnz B a nIter α :=
+  ⟨normalize_scale hc nCol B, fit_scale hc algo nRow nCol nnz B a nIter α⟩
+
+/-- Non-vacuity: the weighted path with all weights multiplied by 10⁻⁹, and a node attached by an edge of weight
+2·10⁻⁹ next to weights of order 1: its row of `normalize` is not null and Dirichlet gives it its neighbour's value. -/
+example : (fit .dirichlet 3 3 4 (fun i j => (1 / 1000000000) * pathW i j) { values := .dict [(0, 0), (2, 1)] } 2 0).toOption.map
+    (·.values) = some [0, 3/4, 1] := by decide +kernel
+example : (fit .dirichlet 3 3 4 (fun i j => if (i, j) = (0, 1) ∨ (i, j) = (1, 0) then 1
+      else if (i, j) = (1, 2) ∨ (i, j) = (2, 1) then 2 / 1000000000 else 0) { values := .dict [(0, 1), (1, 2)] } 3 0).toOption.map
+    (·.values) = some [1, 2, 2] := by decide +kernel
 
 end SkNet.C14
